@@ -350,6 +350,16 @@ class P:
             k, v = self.peek()
             if k == "id" and v == "let":
                 self.next()
+                if self.accept("op", "("):
+                    names = []
+                    while not self.accept("op", ")"):
+                        self.accept("id", "mut")
+                        names.append(self.expect("id"))
+                        self.accept("op", ",")
+                    self.expect("op", "=")
+                    e = self.expr()
+                    self.expect("op", ";")
+                    return ("lettuple", names, e)
                 mut = self.accept("id", "mut")
                 name = self.expect("id")
                 ty = None
@@ -484,8 +494,17 @@ class P:
                 e = ("unit",)
             else:
                 e = self.expr()
-                self.expect("op", ")")
-                e = ("paren", e)
+                if self.peek() == ("op", ","):
+                    items = [e]
+                    while self.accept("op", ","):
+                        if self.peek() == ("op", ")"):
+                            break
+                        items.append(self.expr())
+                    self.expect("op", ")")
+                    e = ("tuple", items)
+                else:
+                    self.expect("op", ")")
+                    e = ("paren", e)
         elif k == "op" and v == "{":
             s, t = self.block()
             e = ("block", s, t)
